@@ -188,7 +188,7 @@ func mwReplay(in io.Reader, raw bool, args []string) (*Summary, error) {
 						} else {
 							sum.viol("P", c, "alloc %v map %d alt %v method %s limits (%d,%d): P=%.12g want %.12g (U=%v)", al.R, mi, alt, mc.Method, mc.E, mc.Tl, res.P, pf, res.U)
 						}
-					} else if !(res.P >= 0 && res.P <= 1+1e-12) { // one-ulp overshoot of 2*0.5000000000000001 is rounding, not a violation
+					} else if !(res.P >= -1e-12 && res.P <= 1+1e-12) { // rounding-level excursions (2*0.5000000000000001, 1 - 1.0000000000000002) are not violations
 						sum.viol("P-range", c, "alloc %v alt %v: P=%v outside [0,1]", al.R, alt, res.P)
 					}
 					// swapping the samples: U -> n1 n2 - U, Less <-> Greater, Differs preserved
@@ -563,6 +563,11 @@ func mwRecord(out io.Writer, args []string) error {
 			heavy := k == 1 && idx%4 == 2 // one call per such history: a tie group of 255..300 values in the first sample
 			if heavy {
 				n1, n2 = []int{255, 256, 257, 300}[rng.Intn(4)]+rng.Intn(3), 5+rng.Intn(20)
+				// (the exact tied distribution of 300 values would take hours: this call is for the approximate method)
+				if stats.MannWhitneyExactLimit != 50 || stats.MannWhitneyTiesExactLimit != 25 {
+					stats.MannWhitneyExactLimit, stats.MannWhitneyTiesExactLimit = 50, 25
+					enc.Encode(mwEvent{Op: "SetLimits", E: 50, T: 25, Seed: *rf.seed, Idx: idx, P: sbig{0, []int{}}, X1: []int64{}, X2: []int64{}, Pd: mkfdy(0), Z: mkfdy(0), Phi: mkfdy(0)})
+				}
 			}
 			var span int64
 			spanKind := rng.Intn(4)
